@@ -163,7 +163,9 @@ def translate_wavefunction(ar):
     ], where + " (head, restricted filter)")
     _expect(body[8:9], [
         "if return_keep is not None:\n    ret_wfn = {'restricted': restricted}\n    if 'basis' in wfn:\n        ret_wfn['basis'] = wfn['basis']\n"
-        "    for rk in return_keep:\n        key = wfn.get(rk, None)\n        if key is None:\n            continue\n        ret_wfn[rk] = key\n        ret_wfn[key] = wfn[key]\n"
+        "    for rk in return_keep:\n        key = wfn.get(rk, None)\n        if key is None:\n            continue\n"
+        "        if key not in wfn:\n            raise ValueError(f'Return quantity {key} does not exist in the values.')\n"
+        "        ret_wfn[rk] = key\n        ret_wfn[key] = wfn[key]\n"
         "    return ret_wfn\nelse:\n    return wfn"], where + " (pointer-following loop)")
     branches, orelse = _chain(body[7], "wfnp", where)
     _expect(orelse, ["raise ValueError(f'Protocol `wavefunction:{wfnp}` is not understood.')"], where + " (else)")
@@ -462,7 +464,7 @@ def translate_return_result(ar):
         raise TranslateError(f"{where}: expected @validator('return_result')")
     _expect(_strip_doc(fn.body), [
         "if values['driver'] == 'gradient':\n    v = np.asarray(v).reshape(-1, 3)\nelif values['driver'] == 'hessian':\n"
-        "    v = np.asarray(v)\n    nsq = int(v.size ** 0.5)\n    v.shape = (nsq, nsq)",
+        "    v = np.asarray(v)\n    nsq = int(v.size ** 0.5)\n    v = v.reshape(nsq, nsq)",
         "return v"], where)
     return [("gradient", "(RRReshape [DAny; DConst 3%Z])"), ("hessian", "RRSquare")]
 
